@@ -33,7 +33,10 @@ def _comment_out_toml(s: str):
     # Only comment out keys, not headers or empty lines
     return "\n".join(
         [
-            "#" + line if line.strip() and not line.strip().startswith("[") else line
+            "#" + line
+            if line.strip()
+            and (not line.strip().startswith("[") or line.strip().startswith("[["))
+            else line
             for line in s.split("\n")
         ]
     )
